@@ -44,6 +44,12 @@ CHECKS = {
     "C08": ("region-containment proof per path partition (abstract interpretation + Fourier-Motzkin), table agreement, base-case/inductive-step analysis of the year loop",
             "is_gregorian_valid accepts only inside / rejects only outside the statement's region (month lengths, 4/100/400 rule, leap-second instants from the IERS rows); tables; maybe_from_gregorian = 365(y-1900) d +/- one day per leap loop-year + cumulative days + time of day - scale offset, Err on invalid input, no panic.",
             "3.C08"),
+    "C07": ("constant agreement with the NAIF kernel file + expression-DAG shape comparison (abstract interpretation, sin uninterpreted) + operand-flow/sign rules",
+            "PARTIAL (necessary conditions): NAIF/TDB constants equal the kernel's and the statement's; delta_et_tai and inner_g are exactly the closed forms as expression DAGs; both directions of ET and TDB apply the same correction with opposite signs, mirrored 32.184 s shift and J2000 offset. The 30 ns / 20 ns / 100 ns accuracy clauses are floating-point error bounds and are NOT decided.",
+            "3.C07"),
+    "C18": ("finite-map/table agreement + decision-table extraction over float comparison terms + reachability of panics / loop bounds by abstract interpretation",
+            "PARTIAL: factor tables of Unit x f64 / Unit x i64 / in_seconds agree and match the statement; Unit<->u8 inverse; Unit x f64 saturates by the documented three-way decision and hands trunc(q*factor) to the exact integer constructors; no panic and bounded loops for any f64 in Unit x f64, to_seconds/to_unit, from_* and Duration x f64. Ulp/rounding/monotonicity clauses are NOT decided.",
+            "3.C18"),
 }
 
 NOT_YET = {}
